@@ -121,9 +121,12 @@ class Task(object):
     def cand(self, site, inputs, what):
         self.cands.append({'site': site, 'inputs': jsonable(inputs), 'what': what})
 
-    def decide(self, ctx, path, name, bad, site=None, inputs=None, what='', bound='', timeout_ms=None, extra=()):
+    def decide(self, ctx, path, name, bad, site=None, inputs=None, what='', bound='', timeout_ms=None, extra=(), use_pc=True):
         """discharge one obligation on one path; `inputs(model)` turns a model into replay inputs"""
-        r, m, dt = core.check(ctx, path, bad, timeout_ms=timeout_ms, extra=extra)
+        r, m, dt = core.check(ctx, path, bad, timeout_ms=timeout_ms, extra=extra, use_pc=use_pc)
+        if r == 'unknown' and not use_pc:
+            r, m, dt2 = core.check(ctx, path, bad, timeout_ms=timeout_ms, extra=extra, use_pc=True)
+            dt += dt2
         if r == 'unknown':
             # one retry with a much larger budget before the obligation is reported inconclusive
             r, m, dt2 = core.check(ctx, path, bad, timeout_ms=8 * (timeout_ms or ctx.timeout_ms), extra=extra)
